@@ -604,6 +604,13 @@ func run(r *enumx.Run, replay *enumx.ReplayCase) {
 		r.Space("refusal classes: wrong field count (min-2..max+2), value below minimum / above maximum, inverted range, zero step, non-numeric, unknown name, unknown descriptor, unknown zone - each must return an error")
 	}
 
+	// 5a. spelled-out full sets: the whole range written without '*' / '?'
+	{
+		jobs := fullSetJobs(cfgs)
+		evalJobs(jobs)
+		r.Space(fmt.Sprintf("spelled-out full sets: for every field the whole range written as lo-hi, lo-hi/1, lo/1, the full list, two abutting / overlapping ranges, a range plus a value, name ranges and name lists (month, dow) and */1 - alone in its field, and in the dom/dow pair against every partner of {*, ?, single value, list, range, */2, every spelling of the partner's full set}; a field without '*' / '?' is restricted whatever its value set (either-day rule), '*/1' alone is not judged (the unchanged code treats it as '*'): %d cases", len(jobs)))
+	}
+
 	// 5b. names, garbage and digits in every syntactic position of every field,
 	// of descriptors and of the zone prefix; the reference grammar decides (names
 	// are legal only as single values / range ends of the month and dow fields)
@@ -1058,4 +1065,106 @@ func sequences(r *enumx.Run, ag *agg) int {
 		total.Add(n)
 	}
 	return int(total.Load())
+}
+
+// ---- spelled-out full sets -----------------------------------------------------------
+
+type spelling struct{ shape, text string }
+
+// fullSpellings: ways of writing the whole range of field f without '*' / '?',
+// plus "*/1" (whose star flag the reference leaves open).
+func fullSpellings(f int) []spelling {
+	lo, hi := cronref.Range(f)
+	mid := (lo + hi) / 2
+	var list []string
+	for v := lo; v <= hi; v++ {
+		list = append(list, fmt.Sprint(v))
+	}
+	out := []spelling{
+		{"lo-hi", fmt.Sprintf("%d-%d", lo, hi)},
+		{"lo-hi/1", fmt.Sprintf("%d-%d/1", lo, hi)},
+		{"lo/1", fmt.Sprintf("%d/1", lo)},
+		{"list", strings.Join(list, ",")},
+		{"abutting", fmt.Sprintf("%d-%d,%d-%d", lo, mid, mid+1, hi)},
+		{"abutting-reversed", fmt.Sprintf("%d-%d,%d-%d", mid+1, hi, lo, mid)},
+		{"overlapping", fmt.Sprintf("%d-%d,%d-%d", lo, mid+1, mid, hi)},
+		{"range+value", fmt.Sprintf("%d,%d-%d", lo, lo+1, hi)},
+		{"range+inner", fmt.Sprintf("%d-%d,%d", lo, hi, mid)},
+		{"steps", fmt.Sprintf("%d-%d/2,%d-%d/2", lo, hi, lo+1, hi)},
+		{"*/1", "*/1"},
+		{"*/1+value", fmt.Sprintf("*/1,%d", mid)},
+		{"*/2+rest", fmt.Sprintf("*/2,%d-%d/2", lo+1, hi)},
+	}
+	var names []string
+	switch f {
+	case 4:
+		names = cronref.MonthNames
+	case 5:
+		names = cronref.DowNames
+	}
+	if names != nil {
+		first, last := names[0], names[len(names)-1]
+		var lower []string
+		for _, n := range names {
+			lower = append(lower, strings.ToLower(n))
+		}
+		out = append(out,
+			spelling{"NAME-NAME", first + "-" + last},
+			spelling{"NAME-NAME", strings.ToLower(first) + "-" + strings.ToLower(last)},
+			spelling{"NAME-NAME", title(first) + "-" + title(last)},
+			spelling{"NAME-NAME/1", first + "-" + last + "/1"},
+			spelling{"NAME/1", first + "/1"},
+			spelling{"name-list", strings.Join(names, ",")},
+			spelling{"name-list", strings.Join(lower, ",")},
+			spelling{"N-NAME", fmt.Sprintf("%d-%s", lo, last)},
+			spelling{"NAME-N", fmt.Sprintf("%s-%d", first, hi)},
+		)
+	}
+	return out
+}
+
+func fullSetJobs(cfgs []config) []job {
+	var jobs []job
+	partners := map[int][]string{
+		3: {"*", "?", "13", "1,15", "28-31", "*/2", "2-30/2", "1"},
+		5: {"*", "?", "5", "0,6", "MON-FRI", "*/2", "1/2", "fri"},
+	}
+	for f := 0; f < 6; f++ {
+		for _, sp := range fullSpellings(f) {
+			for ci, c := range cfgs {
+				p, opt := c.present()
+				if !p[f] {
+					continue
+				}
+				emit := func(tok [6]string) {
+					jobs = append(jobs, job{sub: "fullset", field: f, form: sp.shape, cfg: ci, spec: c.assemble(tok, false)})
+					if opt >= 0 && opt != f {
+						jobs = append(jobs, job{sub: "fullset", field: f, form: sp.shape, cfg: ci, spec: c.assemble(tok, true)})
+					}
+				}
+				for _, base := range [][6]string{baseStars, baseDistinct} {
+					tok := base
+					tok[f] = sp.text
+					emit(tok)
+				}
+				// the day pair: this spelling against every kind of partner
+				if f == 3 || f == 5 {
+					g := 8 - f // the other day field
+					if !p[g] {
+						continue
+					}
+					ps := append([]string{}, partners[g]...)
+					for _, q := range fullSpellings(g) {
+						ps = append(ps, q.text)
+					}
+					for _, q := range ps {
+						tok := baseDistinct
+						tok[f], tok[g] = sp.text, q
+						emit(tok)
+					}
+				}
+			}
+		}
+	}
+	return jobs
 }
